@@ -35,9 +35,21 @@ func genbankFieldNameParser(q interface{}, depth int) pars.Parser {
 			what := fmt.Sprintf("field name `%s` is wider than the indent", name)
 			return pars.NewError(what, state.Position())
 		}
-		indentParser := pars.String(strings.Repeat(" ", indentLength))
-		paddingParser := pars.Any(indentParser, pars.Dry(pars.EOL))
-		if paddingParser(state, pars.Void) != nil {
+		// The padding is looked at blank by blank, in place: the indent is
+		// as wide as the run of blanks behind LOCUS was, and a string of
+		// that width built for every field name is time and memory in
+		// proportion to indent x lines.
+		padded := true
+		for i := 0; i < indentLength; i++ {
+			if state.Request(i+1) != nil || state.Buffer()[i] != ' ' {
+				padded = false
+				break
+			}
+		}
+		if padded && indentLength > 0 {
+			state.Advance()
+		}
+		if !padded && pars.Dry(pars.EOL)(state, pars.Void) != nil {
 			state.Clear()
 			what := fmt.Sprintf("uneven indent in field `%s`", name)
 			return pars.NewError(what, state.Position())
